@@ -67,6 +67,18 @@ def t_vector(rng):
             % (n, n, rng.randint(0, n - 1)))
 
 
+def t_vector_fill(rng):
+    """aggregates stored by vector-fill!/make-vector and reachable only through the vector"""
+    n = rng.randint(2, 8)
+    what = rng.choice(["(list 1 2 3)", "(cons 'a (cons 'b '()))", "(lambda () (list %d))" % n, "(vector 1 (list 2) 3)",
+                       "(call/cc (lambda (k) k))", "(string-append \"s\" \"t\")"])
+    use = "((vector-ref v 0))" if what.startswith("(lambda") else "(vector-ref v %d)" % rng.randint(0, n - 1)
+    return ("(define v (make-vector %d 0)) (vector-fill! v %s) "
+            "(define (junk i acc) (if (= i 0) (length acc) (junk (- i 1) (cons (vector i i) acc)))) (junk 40 '()) "
+            "%s (define w (make-vector %d %s)) (junk 40 '()) (vector-ref w 0) (vector->list v)"
+            % (n, what, use, n, what if not what.startswith("(call/cc") else "(list 7)"))
+
+
 def t_string(rng):
     n = rng.randint(2, 25)
     return ("(define (rep n acc) (if (= n 0) acc (rep (- n 1) (string-append acc (number->string n) \"-\")))) "
@@ -176,7 +188,7 @@ def t_mixed(rng):
     return " ".join(parts)
 
 
-TEMPLATES = [("list", t_list), ("vector", t_vector), ("string", t_string), ("closure", t_closure),
+TEMPLATES = [("list", t_list), ("vector", t_vector), ("vector-fill", t_vector_fill), ("string", t_string), ("closure", t_closure),
              ("callcc-args", t_callcc_args), ("callcc-escape", t_callcc_escape), ("generator", t_generator),
              ("eval", t_eval), ("symbols", t_symbols), ("macro", t_macro), ("bignum", t_bignum),
              ("promise", t_promise), ("error", t_error), ("assoc", t_assoc), ("setcar", t_setcar)]
